@@ -31,7 +31,7 @@ Judge(e) ==
                    ELSE IF e.n \in DOMAIN st.ref /\ ~e.ok THEN "trap_statement_refused" ELSE "ok"]
       [] e.op = "renum" ->
            LET must == RenumMust(st.ref, e)
-               s1   == IF e.ok THEN RenumEffect(st, e) ELSE [st EXCEPT !.expect = Unset]
+               s1   == IF e.ok THEN RenumEffect(st, e) ELSE st
                fm   == FullMap(st.ref, RenumMap(st.ref, RNew(e), ROld(e), RInc(e)))
                good == e.obs.list = Listing(s1.ref)
                v == IF e.kind = "internal" THEN "internal_error"
